@@ -85,6 +85,7 @@ def run(chk, facts, tier):
                 if is_name(tgt, iv.n if iv else None):
                     incv = strip_casts(val)
         def is_next_of(v, i):
+            v = deep(v)
             return v is not None and v.k == 'BinaryOperator' and v.o == '%' and (is_name(v.c[1], 'Size') or v.c[1].v is not None) and strip_casts(v.c[0]).k == 'BinaryOperator' and strip_casts(v.c[0]).o == '+' and is_name(strip_casts(v.c[0]).c[0], i) and cval(strip_casts(v.c[0]).c[1]) == 1
         ok = ok and is_next_of(incv, iv.n if iv else None)
         chk.instance('round-robin', fn, 'for (i = next_; ...; i = (i + 1) % Size)', ok, '' if ok else 'scan does not start at next_ / does not cycle', node=loop, key='loop')
